@@ -18,6 +18,7 @@ from lib.ctx import MachineryError
 from checks.c11 import plans_from_tlc
 
 HERE = os.path.dirname(os.path.dirname(os.path.abspath(__file__)))
+VARIANT_EXTRA = {"reinit_stale": "alone_decoder.c: uncompressed_size survives a re-initialisation of the handle"}
 VARIANTS = {"eopm_local": "lzma_decoder.c: eopm_is_valid recomputed on every call",
             "picky_zero": "alone_decoder.c: dictionary size 0 passes the plausibility test",
             "finish_all": "auto_decoder.c: trailing-garbage test applied to .lz/.xz too"}
@@ -184,6 +185,154 @@ def replay(ctx, plans, sopath, nproc):
             ctx.violation(m["key"], "slicing %s: expected %s, got %s (file %s)" % (
                 m["slicing"], m["expected"], m["got"], m["file"][:160]), dict(kind="plan", **m))
     ctx.add_traces(len(plans))
+    return n
+
+# ------------------------------------------------------------------------------------------------ handle re-use
+def compare(plan_like, S, lay, r, data, drv):
+    """-> None or (what, expected, got) for one decoder run against one per-file prediction"""
+    e_rets, rel, e_out, e_tin = expected_of(plan_like, S, lay, drv)
+    if not r["ok"]:
+        return ("acct", "ok", "broken")
+    if r["rets"] != e_rets:
+        return ("rets", "+".join(e_rets) or "none", "+".join(r["rets"]) or "none")
+    if rel == "eq" and e_out is not None and r["out"] != e_out:
+        return ("out", str(len(e_out)), str(len(r["out"])))
+    if rel == "ge" and not (e_out is not None and r["out"].startswith(e_out)):
+        return ("out", "prefix-kept", "lost")
+    if rel == "le" and not drv.all_data(S).startswith(r["out"]):
+        return ("out", "at-most", "different")
+    if e_tin is not None and r["total_in"] != e_tin:
+        return ("tin", str(e_tin), str(r["total_in"]))
+    return None
+
+def seq_files(sp, seed, drv):
+    out = []
+    for j, f in enumerate(sp["files"]):
+        S = drv.serialise(f["fd"], "%s.%d" % (seed, j))
+        lay = drv.Layout(f["kinds"], S, f["fd"]["cut"])
+        if not lay.ok:
+            raise MachineryError("sequence plan: layout mismatch %s" % json.dumps(f["fd"])[:300])
+        out.append((f, S, lay, S.full[:lay.ccut]))
+    return out
+
+def replay_sequences(ctx, splans):
+    """FormatSeq plans: the files of a sequence are decoded one after the other on ONE lzma_stream that is
+    re-initialised (constructor called again, no lzma_end) between them; every file must give what the model
+    predicts for it - which is what a fresh decoder gives."""
+    from harness.pydrv import lz, c16drv as drv
+    seen = set(); n = 0
+    for k, sp in enumerate(splans):
+        files = seq_files(sp, ctx.seed, drv)
+        rng = random.Random("%s/seq/%d" % (ctx.seed, k))
+        apis = [sp["api"]] + (["stream_mt"] if sp["api"] == "stream" else [])
+        styles = ["oneshot", "bytewise", "split"] + ([] if ctx.quick else ["split", "split", "random"])
+        for rapi in apis:
+            for style in styles:
+                c = lz.Coder()
+                for j, (f, S, lay, data) in enumerate(files):
+                    nb = len(data)
+                    pieces = [] if style == "oneshot" or nb < 2 else [1] * nb if style == "bytewise" else \
+                        [rng.randrange(1, nb)] if style == "split" else [rng.randrange(1, 9) for _ in range(nb)]
+                    r = drv.drive(rapi, sp["flags"], data, pieces, sp["mode"], coder=c)
+                    n += 1
+                    ctx.case(key=("seq", k, rapi, style, j, tuple(pieces[:40])))
+                    pl = dict(f, api=rapi, flags=sp["flags"], mode=sp["mode"])
+                    bad = compare(pl, S, lay, r, data, drv)
+                    if bad:
+                        fresh = compare(pl, S, lay, drv.drive(rapi, sp["flags"], data, pieces, sp["mode"]), data, drv)
+                        if j > 0 and fresh is None:
+                            key = "reuse:%s:%s:after-%s:%s:%s->%s" % (rapi, f["fd"]["fmt"], files[j - 1][0]["fd"]["fmt"], bad[0], bad[1], bad[2])
+                        else:
+                            key = classify(pl, bad[0], bad[1].split("+")[-1], bad[2].split("+")[-1], bool(pieces))
+                        if key not in seen:
+                            seen.add(key)
+                            ctx.violation(key, "file %d of a sequence on one re-initialised handle (%s, %s, %s): expected %s got %s; "
+                                          "a fresh handle %s" % (j + 1, rapi, sp["flags"], style, bad[1], bad[2],
+                                                                 "is fine" if fresh is None else "differs too"),
+                                          dict(kind="sequence", api=rapi, flags=sp["flags"], mode=sp["mode"], style=style, index=j,
+                                               files=[d.hex() for _, _, _, d in files], model=[x[0]["rets"] for x in files]))
+                        break
+                c.end()
+    if splans:
+        sp = splans[len(splans) // 2]
+        ctx.sample(dict(kind="sequence_plan", api=sp["api"], flags=sp["flags"], mode=sp["mode"],
+                        files=[dict(fd=f["fd"], rets=f["rets"], out=f["out"], tin=f["tin"]) for f in sp["files"]]))
+    ctx.add_traces(len(splans))
+    return n
+
+def cli_sequences(ctx, splans):
+    """xz -dc f1 f2 .., lzmadec f1 f2 .., xzdec f1 f2 ..: one process, one lzma_stream re-initialised per file"""
+    from harness.pydrv import c16drv as drv
+    cli = build.cli()
+    env = dict(os.environ); env.pop("LD_PRELOAD", None); env["LC_ALL"] = "C"
+    ML = "--memlimit-decompress=%d" % drv.MEMLIMIT
+    jobs = []
+    for k, sp in enumerate(splans):
+        if sp["mode"] != "finish":
+            continue
+        fl = tuple(sorted(sp["flags"])); api = sp["api"]
+        fmts = set(f["fd"]["fmt"] for f in sp["files"])
+        if api == "alone" and not fl:
+            tool, argv, stop = "lzmadec", [], True
+        elif api == "stream" and fl == ("CONCATENATED",):
+            tool, argv, stop = "xzdec", [], True
+        elif api in ("auto", "lzip", "stream") and (fl == ("CONCATENATED", "TELL_UNSUPPORTED_CHECK") or
+                                                    (fl == ("CONCATENATED",) and "xz" not in fmts)):
+            tool, argv, stop = "xz", ["-dc", ML, "-T1" if k % 2 else "-T3"], False
+        else:
+            continue
+        jobs.append((k, sp, tool, argv, stop))
+    if ctx.quick:
+        ctx.rng.shuffle(jobs)
+        per = {}; keep = []
+        for j in jobs:
+            fam = (j[2], tuple(file_class(f["fd"]) for f in j[1]["files"]))
+            if fam not in per and len([1 for x in keep if x[2] == j[2]]) < 80:
+                per[fam] = 1; keep.append(j)
+        jobs = keep
+    def one(job):
+        k, sp, tool, argv, stop = job
+        files = seq_files(sp, ctx.seed, drv)
+        d = os.path.join(ctx.workdir, "seq%d" % k)
+        os.makedirs(d, exist_ok=True)
+        paths = []
+        exp_out = b""; exp_rc = 0; cmp_out = True
+        for j, (f, S, lay, data) in enumerate(files):
+            p = os.path.join(d, "f%d" % j)
+            with open(p, "wb") as fh:
+                fh.write(data)
+            paths.append(p)
+        for f, S, lay, data in files:
+            last = f["rets"][-1]
+            eo = drv.map_out(S, f["out"]) if f["exp"]["outRel"] == "eq" else None
+            if eo is None:
+                cmp_out = False
+            else:
+                exp_out += eo
+            good = last == "STREAM_END" and (tool != "lzmadec" or f["tin"] == f["len"])
+            if not good:
+                exp_rc = 1
+                if stop:
+                    break
+            elif "UNSUPPORTED_CHECK" in f["rets"] and tool == "xz" and exp_rc == 0:
+                exp_rc = 2              # a warning; an error on any operand (exit 1) takes precedence
+        p = subprocess.run([cli[tool]] + argv + paths, stdout=subprocess.PIPE, stderr=subprocess.PIPE, env=env, timeout=60)
+        return job, files, p.returncode, p.stdout, p.stderr, exp_rc, exp_out if cmp_out else None
+    seen = set(); n = 0
+    with concurrent.futures.ThreadPoolExecutor(6) as ex_:
+        for job, files, rc, so, se, exp_rc, exp_out in ex_.map(one, jobs):
+            k, sp, tool, argv, stop = job
+            n += 1
+            ctx.case(key=("cliseq", tool, tuple(argv[:1]), tuple(hashlib.md5(d).hexdigest() for _, _, _, d in files)))
+            what = "exit:%d->%d" % (exp_rc, rc) if rc != exp_rc else "stdout" if exp_out is not None and so != exp_out else None
+            if what:
+                key = "cli-multi:%s:%s:%s" % (tool, "+".join(f["fd"]["fmt"] for f, _, _, _ in files), what)
+                if key not in seen:
+                    seen.add(key)
+                    ctx.violation(key, "%s %s with %d file operands: exit %d (model %d), stdout %d bytes (model %s), stderr %r; "
+                                  "model per file %s" % (tool, argv, len(files), rc, exp_rc, len(so),
+                                                         None if exp_out is None else len(exp_out), se[:300], [f["rets"] for f, _, _, _ in files]),
+                                  dict(kind="cli_sequence", tool=tool, argv=argv, files=[d.hex() for _, _, _, d in files]))
     return n
 
 # ------------------------------------------------------------------------------------------------ glue as judge
@@ -482,6 +631,13 @@ def run(ctx):
         cfgs.append(gen)
         gens.append("GenFormats(%s)" % ",".join(fmts))
         jobs.append((gens[-1], "GenFormats", gen, 3, 1500))
+    seqmc = write_cfg(ctx, "seq_mc", "MCFormatSeq.cfg", SeqLevel='"core"' if quick else '"all"',
+                      ChunkSizes="{0, 1}" if quick else "{0, 1, 2, 3, 7}")
+    jobs.append(("FormatSeq(re-initialised handle, %s)" % ("core" if quick else "all"), "FormatSeq", seqmc, 2, 1500))
+    seqgen = write_cfg(ctx, "seq_gen", "GenFormatSeq.cfg")
+    jobs.append(("GenFormatSeq", "FormatSeq", seqgen, 2, 1500))
+    seqvar = write_cfg(ctx, "seq_var", "MCFormatSeqVar_stale.cfg")
+    jobs.append(("variant:reinit_stale", "FormatSeq", seqvar, 1, 600))
     for v in VARIANTS:
         vc = write_cfg(ctx, "var_" + v, "MCFormatsVar_%s.cfg" % v, Sweep='"core"')
         cfgs.append(vc)
@@ -503,12 +659,12 @@ def run(ctx):
         r = res[name]
         if name.startswith("variant:"):
             v = name.split(":")[1]
-            ctx.tlc_runs.append(dict(name="MCFormats broken variant " + v, **r.summary()))
+            ctx.tlc_runs.append(dict(name="broken model variant " + v, **r.summary()))
             if r.error or r.timeout:
                 raise MachineryError("TLC variant %s failed: %s\n%s" % (v, r.error, r.out[-2000:]))
             if r.violation != "MeetsContract":
                 raise MachineryError("the deliberately broken model variant %s (%s) does not violate the contract: "
-                                     "the model checking is vacuous" % (v, VARIANTS[v]))
+                                     "the model checking is vacuous" % (v, dict(VARIANTS, **VARIANT_EXTRA)[v]))
             ctx.log("broken variant %s violates MeetsContract as it must (%d states)" % (v, r.distinct))
             continue
         ctx.add_tlc(name, r, exhaustive=True)
@@ -538,6 +694,15 @@ def run(ctx):
     nc = run_cli(ctx, plans)
     ctx.log("ran %d tool invocations" % nc)
     ne = encoder_clause(ctx)
+    splans = plans_from_tlc(res["GenFormatSeq"].out)
+    splans.sort(key=lambda p: json.dumps(p, sort_keys=True))
+    if len(splans) < 500:
+        raise MachineryError("sequence plan generation produced only %d plans\n%s" % (len(splans), res["GenFormatSeq"].out[-1500:]))
+    ns = replay_sequences(ctx, splans)
+    ncs = cli_sequences(ctx, splans)
+    ctx.log("re-use: %d sequences of 2-3 files on one re-initialised handle (%d decoder runs), %d multi-file tool invocations" % (
+        len(splans), ns, ncs))
+    ctx.extra["sequence_plans"] = len(splans); ctx.extra["sequence_decoder_runs"] = ns; ctx.extra["multi_file_tool_runs"] = ncs
     ctx.extra["plans"] = len(plans); ctx.extra["decoder_runs"] = n; ctx.extra["tool_runs"] = nc
     ctx.assumptions += [
         "LZMA1 payloads are abstract in the model (verdict level); the real payloads are made by harness/glue's range coder",
